@@ -1,6 +1,7 @@
 import Proofs.Lemmas.Sim3Blocks
 import Proofs.Lemmas.RoundedExp
 import Proofs.Lemmas.ExpGlueReal
+import Mathlib.Analysis.Complex.ExponentialBounds
 /-!
 # Block-wise statements for all four types, in rounded arithmetic, and through the public path (C01 pass 4)
 
@@ -150,5 +151,82 @@ theorem rounded_rxso3_blocks (eps γq γs : ℝ) (h0 : 0 ≤ eps) (h1 : eps ≤ 
     exact this
   · rw [blk4_apply_cl, blk4_apply_cl]; simp
   · rw [blk4_apply_last, blk4_apply_last]
+
+/-- `C(σ) = (e^σ − 1)/σ` (`1` at `σ = 0`): the eigenvalue of the coupling matrix `W(φ,σ)` along `φ` -/
+def sim3C (s : ℝ) : ℝ := if s = 0 then 1 else WsC s
+
+/-- the translation scale the property's relative error refers to (and the harness uses): `C(σ)·‖τ‖∞` -/
+def sim3TransScale (x : sim3 ℝ) : ℝ := sim3C x.sigma * max |x.tau.x| (max |x.tau.y| |x.tau.z|)
+
+theorem sim3C_lower (s : ℝ) : Real.exp (-|s|) ≤ sim3C s := by
+  unfold sim3C
+  split_ifs with h
+  · rw [h]; simp
+  · exact WsC_lower s h
+
+theorem tau_one_le_three_inf (v : Vec3 ℝ) : |v.x| + |v.y| + |v.z| ≤ 3 * max |v.x| (max |v.y| |v.z|) := by
+  have h1 := le_max_left |v.x| (max |v.y| |v.z|)
+  have h2 := le_trans (le_max_left |v.y| |v.z|) (le_max_right |v.x| (max |v.y| |v.z|))
+  have h3 := le_trans (le_max_right |v.y| |v.z|) (le_max_right |v.x| (max |v.y| |v.z|))
+  linarith
+
+/-- translation column of `matrix(Exp ξ)` against `exp(ξ^)`, RELATIVE to the translation scale `C(σ)‖τ‖∞`:
+`≤ 90·eps + e^{2|σ|}·eps³` for every input -/
+theorem sim3_translation_relative (eps : ℝ) (x : sim3 ℝ) (h0 : 0 ≤ eps) (h1 : eps ≤ 1) (a : Fin 3) :
+    |(Sim3matrix (sim3Exp eps x)).toMatrix4 a.castSucc (Fin.last 3) - NormedSpace.exp (sim3Gen x) a.castSucc (Fin.last 3)|
+      ≤ (90 * eps + Real.exp (2 * |x.sigma|) * eps ^ 3) * sim3TransScale x := by
+  unfold sim3TransScale
+  set T1 := |x.tau.x| + |x.tau.y| + |x.tau.z| with hT1
+  set Ti := max |x.tau.x| (max |x.tau.y| |x.tau.z|) with hTi
+  have hT : T1 ≤ 3 * Ti := tau_one_le_three_inf x.tau
+  have hTi0 : 0 ≤ Ti := le_trans (abs_nonneg _) (le_max_left _ _)
+  have hC := sim3C_lower x.sigma
+  have hCpos : 0 < sim3C x.sigma := lt_of_lt_of_le (Real.exp_pos _) hC
+  have he3 : 0 ≤ eps ^ 3 := by positivity
+  have hE := Real.exp_pos |x.sigma|
+  have hsplit : Real.exp (2 * |x.sigma|) * Real.exp (-|x.sigma|) = Real.exp |x.sigma| := by
+    rw [← Real.exp_add]; congr 1; ring
+  by_cases hs : eps < |x.sigma|
+  · have h := (sim3_blocks_large_sigma eps x h0 h1 hs).2.1 a
+    refine le_trans h ?_
+    -- e^{|σ|}(eps³/3)·T1 ≤ e^{|σ|} eps³ Ti ≤ e^{2|σ|} eps³ · C · Ti
+    have s1 : Real.exp |x.sigma| * (eps ^ 3 / 3) * T1 ≤ Real.exp |x.sigma| * eps ^ 3 * Ti := by
+      have : Real.exp |x.sigma| * (eps ^ 3 / 3) * T1 ≤ Real.exp |x.sigma| * (eps ^ 3 / 3) * (3 * Ti) :=
+        mul_le_mul_of_nonneg_left hT (by positivity)
+      linarith
+    have s2 : Real.exp |x.sigma| ≤ Real.exp (2 * |x.sigma|) * sim3C x.sigma := by
+      rw [← hsplit]; exact mul_le_mul_of_nonneg_left hC (Real.exp_pos _).le
+    have s3 : Real.exp |x.sigma| * eps ^ 3 * Ti ≤ Real.exp (2 * |x.sigma|) * sim3C x.sigma * eps ^ 3 * Ti := by
+      have := mul_le_mul_of_nonneg_right s2 (mul_nonneg he3 hTi0)
+      nlinarith
+    have s4 : 0 ≤ 90 * eps * (sim3C x.sigma * Ti) := by positivity
+    nlinarith
+  · have hle : |x.sigma| ≤ eps := not_lt.mp hs
+    have h := (sim3_blocks_all eps x h0 h1).2.1 a
+    refine le_trans h ?_
+    have hE3 : Real.exp |x.sigma| ≤ 3 := by
+      have : Real.exp |x.sigma| ≤ Real.exp 1 := Real.exp_le_exp.mpr (by linarith)
+      have := Real.exp_one_lt_three
+      linarith
+    have hC3 : 1 ≤ 3 * sim3C x.sigma := by
+      have hm : Real.exp (-1) ≤ Real.exp (-|x.sigma|) := Real.exp_le_exp.mpr (by linarith)
+      have hp : Real.exp 1 * Real.exp (-1) = 1 := by rw [← Real.exp_add]; simp
+      have := Real.exp_one_lt_three
+      have hpos := Real.exp_pos (-1)
+      nlinarith
+    have e3le : eps ^ 3 ≤ eps := by
+      have : eps ^ 2 ≤ 1 := by nlinarith
+      nlinarith
+    -- (8 eps + e^{|σ|} eps³/2)·T1 ≤ (8 eps + 1.5 eps)·3 Ti ≤ 30 eps Ti ≤ 90 eps C Ti
+    have s1 : (8 * eps + Real.exp |x.sigma| * (eps ^ 3 / 2)) ≤ 10 * eps := by nlinarith
+    have s2 : (8 * eps + Real.exp |x.sigma| * (eps ^ 3 / 2)) * T1 ≤ 10 * eps * (3 * Ti) := by
+      have hnn : 0 ≤ 8 * eps + Real.exp |x.sigma| * (eps ^ 3 / 2) := by positivity
+      calc _ ≤ (8 * eps + Real.exp |x.sigma| * (eps ^ 3 / 2)) * (3 * Ti) := mul_le_mul_of_nonneg_left hT hnn
+        _ ≤ 10 * eps * (3 * Ti) := mul_le_mul_of_nonneg_right s1 (by positivity)
+    have s3 : 30 * eps * Ti ≤ 90 * eps * (sim3C x.sigma * Ti) := by
+      have : Ti ≤ 3 * sim3C x.sigma * Ti := by nlinarith
+      nlinarith
+    have s4 : 0 ≤ Real.exp (2 * |x.sigma|) * eps ^ 3 * (sim3C x.sigma * Ti) := by positivity
+    nlinarith
 end
 end PP
